@@ -22,6 +22,21 @@ CLAIMS: dict = {
         technique='contract-based deductive verification: AST->VC symbolic execution of the real query functions + '
                   'SQL->FOL translation, obligations discharged by z3',
         engines=['pyvc', 'sqlvc']),
+    'C06': dict(
+        category='proof',
+        text='Ghost transaction state over the effect log of the symbolically executed real add / '
+             'add_lexical_resource / _add_lexical_resource / _add_ili / remove (all argument shapes, any number '
+             'of lexicons/entries: loops are generic iterations): every write lies inside one `with conn:` block '
+             'of one connection, nothing commits inside, every callback into caller code precedes the first '
+             'write or is inside the block, no except clause swallows. With A-TXN this is exactly "any exception '
+             'at any point rolls everything back" - the quantifier over failure points is eliminated, not sampled.',
+        note='Assumed: sqlite3 transaction semantics (A-TXN), statement atomicity (A-SQLITE); file-level functions '
+             '(scan_lexicons, lmf.load, iterpackages, _ili.load) are stubbed as read-only (their frame is C07/C20). '
+             'Known findings K11 (progress.close() after commit) and K12 (one transaction per package of a '
+             'collection) are reported as KNOWN-FINDING.',
+        technique='contract-based deductive verification: typestate (ghost transaction) obligations over the effect '
+                  'log produced by AST-level symbolic execution of the real functions',
+        engines=['pyvc', 'sqlvc']),
 }
 
 # property -> reason (every property that is not claimed)
